@@ -1054,6 +1054,8 @@ func (cc *Conn) Process(cm *coapNet.ControlMessage, datagram []byte) error {
 	req.SetControlMessage(cm)
 	req.SetSequence(cc.Sequence())
 	cc.checkMyMessageID(req)
+	// a message was received from the peer, whatever the request monitor makes of it
+	cc.inactivityMonitor.Notify()
 	drop, err := cc.requestMonitor(cc, req)
 	if err != nil {
 		cc.ReleaseMessage(req)
@@ -1063,7 +1065,6 @@ func (cc *Conn) Process(cm *coapNet.ControlMessage, datagram []byte) error {
 		cc.ReleaseMessage(req)
 		return nil
 	}
-	cc.inactivityMonitor.Notify()
 	if cc.handleSpecialMessages(req) {
 		return nil
 	}
